@@ -26,12 +26,24 @@ def log(*a):
 
 # ---------------------------------------------------------------------------------------------------
 def build_harness():
-    """Rebuilds the harness against REPO's current working tree (hooks tag `verif`; none needed so far)."""
-    os.makedirs(os.path.dirname(VH), exist_ok=True)
+    """Rebuilds the harness against REPO's current working tree (hooks tag `verif`; none needed so far).
+    For a REPO other than /repo (scratch copies used to test seeded changes) the harness sources are
+    copied to a private build directory so that concurrent checks do not share go.mod."""
+    global VH
     t0 = time.time()
-    subprocess.run(['sh', os.path.join(HARNESS, 'mkmod.sh')], check=True, env=dict(GOENV, REPO=REPO))
-    r = subprocess.run(['go', 'build', '-tags', 'verif', '-o', VH, './cmd/vh'], cwd=HARNESS, env=GOENV,
+    src = HARNESS
+    if REPO != '/repo':
+        tag = hashlib.sha1(REPO.encode()).hexdigest()[:10]
+        src = os.path.join(WORK, 'harness-' + tag)
+        shutil.rmtree(src, ignore_errors=True)
+        shutil.copytree(HARNESS, src, ignore=shutil.ignore_patterns('go.mod', 'go.sum'))
+        VH = os.path.join(WORK, 'bin', 'vh-' + tag)
+    os.makedirs(os.path.dirname(VH), exist_ok=True)
+    subprocess.run(['sh', os.path.join(src, 'mkmod.sh')], check=True, env=dict(GOENV, REPO=REPO))
+    r = subprocess.run(['go', 'build', '-tags', 'verif', '-o', VH, './cmd/vh'], cwd=src, env=GOENV,
                        stdout=subprocess.PIPE, stderr=subprocess.STDOUT, text=True)
+    if REPO != '/repo':
+        shutil.rmtree(src, ignore_errors=True)
     if r.returncode != 0:
         raise Undecided('harness does not build against the repository:\n' + r.stdout[-4000:])
     return time.time() - t0
@@ -101,6 +113,8 @@ def family_cfg(fam, tier, devs=()):
 
 # ---------------------------------------------------------------------------------------------------
 TAGS = json.load(open(os.path.join(SPEC, 'tags.json')))
+TAGS.setdefault('ante', dict(guard={}, suff={}, err_guard=[], field={}, event_all_fields={}, finding={}))
+TAGS.setdefault('fmt', dict(guard={}, suff={}, err_guard=[], field={}, event_all_fields={}, finding={}))
 
 
 def guard_tags(mod, etype, guard):
@@ -176,6 +190,13 @@ def attribute(m, mod='l1'):
         if mod == 'val' and et == 'EndBlock' and (m.get('spec_resp') or {}).get('planned'):
             tags.add('C14')      # the block that applies an executor-change plan
         why = '%s of %s differs in %s' % ('post-state' if m['kind'] == 'state' else 'response', et, ','.join((m.get('fields') or [])[:6]))
+    elif m['kind'] == 'case':
+        if m.get('stated', True):
+            tags.add('C20')
+        why = 'decision of %s differs: specification %s, implementation %s for %s' % (et, json.dumps(m['detail'].get('spec')), json.dumps(m['detail'].get('impl')), json.dumps(m['detail'].get('case'))[:300])
+    elif m['kind'] == 'format':
+        tags.add('C17')
+        why = '%s: %s (%s)' % (et, m.get('fmt_kind'), json.dumps(m.get('detail'))[:300])
     elif m['kind'] == 'init':
         why = 'initial state differs: ' + ','.join((m.get('fields') or [])[:8])
     elif m['kind'] == 'invariant':
@@ -217,8 +238,77 @@ def matches_known(k, pid, m):
 
 
 # ---------------------------------------------------------------------------------------------------
+def run_formats(name, tier, seed, work):
+    """C17: TLC emits the term of every operator / structural case of Formats.tla and every memory layout
+    of SliceMem.tla (checking Pure and LayoutFree on the model); the harness evaluates the terms with the
+    generic evaluator and compares with the chain's functions, and runs every layout for real."""
+    fam = F.FAMILIES[name]
+    c = fam['consts'][tier]
+    out1 = os.path.join(work, 'fmt.tlc.out')
+    log('[%s] TLC: emitting format cases (MaxTree=%d MaxProof=%d)' % (name, c['MaxTree'], c['MaxProof']))
+    r1 = run_tlc(fam['module'], 'SPECIFICATION Spec\nCONSTANTS MaxTree = %d  MaxProof = %d\n' % (c['MaxTree'], c['MaxProof']), work, out1, fam['timeout'][tier], workers=1)
+    out2 = os.path.join(work, 'slicemem.tlc.out')
+    log('[%s] E1: TLC on SliceMem (NItems=%d): Pure, LayoutFree over all layouts and comparison outcomes' % (name, c['NItems']))
+    r2 = run_tlc(fam['sm_module'], 'SPECIFICATION Spec\nCONSTANTS HowPreimage = "fresh"  NItems = %d\nINVARIANTS Pure LayoutFree EmitDone\nCHECK_DEADLOCK FALSE\n' % c['NItems'],
+                 work, out2, fam['timeout'][tier], workers=1)
+    for r in (r1, r2):
+        if r['violated'] or r['errors'] or r['rc'] != 0:
+            raise Undecided('TLC failed on the formats models (rc=%s violated=%s errors=%s)\n%s' % (r['rc'], r['violated'], r['errors'][:3], '\n'.join(r['tail'][-20:])))
+    rep_path = os.path.join(work, 'fmt.json')
+    t0 = time.time()
+    rr = subprocess.run([VH, 'fmt-check', '--edges', out1, '--layouts', out2, '--vectors', os.path.join(VERIF, 'vectors', 'formats.json'),
+                         '--seed', str(seed), '--rounds', str(c['rounds']), '--out', rep_path], stdout=subprocess.PIPE, stderr=subprocess.STDOUT, text=True, timeout=fam['timeout'][tier] * 3)
+    if rr.returncode != 0:
+        raise Undecided('fmt-check failed: ' + rr.stdout[-3000:])
+    rep = json.load(open(rep_path))
+    log('[%s] %d cases + %d layouts, %d evaluations on the real functions, %d mismatches, %.0fs' % (name, rep['cases'], rep['layouts'], rep['evaluations'], rep['n_mismatch'], time.time() - t0))
+    if rep['cases'] == 0 or rep['layouts'] == 0 or rep['layout_patterns_not_reached'] > rep['layouts'] // 4:
+        raise Undecided('formats run is vacuous: %s' % {k: rep[k] for k in ('cases', 'layouts', 'layout_patterns_not_reached')})
+    mism = []
+    for m in rep['mismatches']:
+        if m['kind'] in ('evaluator', 'vector'):
+            raise Undecided('harness evaluator / pinned vectors inconsistent with Formats.tla: %s' % json.dumps(m)[:600])
+        mism.append(dict(kind='format', event=dict(type=m['fn']), fields=[m['kind']], impl_ok=True, spec_ok=True, detail=m['detail'], path=[], fmt_kind=m['kind']))
+    walk = dict(states=r2['distinct'], edges=rep['evaluations'], edges_ok=rep['evaluations'], replayed=rep['evaluations'], unreached_states=0, skipped_subtrees=0,
+                by_type=rep['by_fn'], mismatches=mism, n_mismatch=rep['n_mismatch'], samples=rep['samples'], findings={}, finding_samples={})
+    tlc = dict(r2)
+    return dict(name=name, tlc=tlc, walk=walk, meta=dict(tier=tier), scale='-', walker='fmt-check')
+
+
+def run_cases(name, tier, seed, work):
+    """C20-style families: TLC enumerates the input space of a pure decision function, checks sanity ASSUMEs,
+    prints one CASE line per input with the specification's decision; the harness replays every case on the real code."""
+    fam = F.FAMILIES[name]
+    out1 = os.path.join(work, name + '.tlc.out')
+    log('[%s] TLC: enumerating cases of %s (tier %s)' % (name, fam['module'], tier))
+    r1 = run_tlc(fam['module'], 'SPECIFICATION Spec\nCONSTANTS Tier = "%s"  D = 4\n' % tier, work, out1, fam['timeout'][tier], workers=1)
+    if r1['violated'] or r1['errors'] or r1['rc'] != 0:
+        raise Undecided('TLC failed on %s (rc=%s errors=%s)\n%s' % (fam['module'], r1['rc'], r1['errors'][:3], '\n'.join(r1['tail'][-20:])))
+    rep_path = os.path.join(work, name + '.json')
+    t0 = time.time()
+    rr = subprocess.run([VH, fam['checker'], '--edges', out1, '--seed', str(seed), '--out', rep_path], stdout=subprocess.PIPE, stderr=subprocess.STDOUT, text=True, timeout=fam['timeout'][tier] * 3)
+    if rr.returncode != 0:
+        raise Undecided('%s failed: %s' % (fam['checker'], rr.stdout[-3000:]))
+    rep = json.load(open(rep_path))
+    log('[%s] %d cases replayed on the real code (%s), %d mismatches, %.0fs' % (name, rep['cases'], rep['by_fn'], rep['n_mismatch'], time.time() - t0))
+    if rep['cases'] == 0 or any(v == 0 for v in rep['by_fn'].values()):
+        raise Undecided('case run is vacuous: %s' % rep['by_fn'])
+    mism = [dict(kind='case', event=dict(type=m['fn']), fields=[], impl_ok=True, spec_ok=True, stated=m.get('stated', True),
+                 detail=dict(case=m['case'], spec=m['want'], impl=m['got'], err=m.get('err')), path=[]) for m in rep['mismatches']]
+    walk = dict(states=rep['cases'], edges=rep['cases'], edges_ok=rep['cases'], replayed=rep['cases'], unreached_states=0, skipped_subtrees=0,
+                by_type=rep['by_fn'], mismatches=mism, n_mismatch=rep['n_mismatch'], samples=rep['samples'], findings={}, finding_samples={})
+    tlc = dict(r1)
+    tlc['distinct'] = rep['cases']
+    tlc['states'] = rep['cases']
+    return dict(name=name, tlc=tlc, walk=walk, meta=dict(tier=tier), scale='-', walker=fam['checker'])
+
+
 def run_family(name, tier, seed, work):
     fam = F.FAMILIES[name]
+    if fam.get('kind') == 'formats':
+        return run_formats(name, tier, seed, work)
+    if fam.get('kind') == 'cases':
+        return run_cases(name, tier, seed, work)
     out = os.path.join(work, name + '.tlc.out')
     log('[%s] E1+emit: TLC on %s (tier %s)' % (name, fam['module'], tier))
     res = run_tlc(fam['module'], family_cfg(fam, tier), work, out, fam['timeout'][tier])
@@ -266,7 +356,7 @@ def run_property(pid, tier, seed):
     work = os.path.join(WORK, 'run-%s-%s-%d-%d' % (pid, tier, seed, os.getpid()))
     shutil.rmtree(work, ignore_errors=True)
     os.makedirs(work)
-    ev_path = os.path.join(VERIF, 'evidence', pid + '.json')
+    ev_path = os.path.join(VERIF, 'evidence', pid + '.json') if REPO == '/repo' else os.path.join(WORK, 'evidence-scratch', pid + '.json')
     os.makedirs(os.path.dirname(ev_path), exist_ok=True)
     try:
         dt = build_harness()
